@@ -57,6 +57,7 @@ func (c11) Cases(tier string, seed int64, kf *KnownFindings) []Case {
 	}
 	add(Case{Kind: "oneshot", Count: 1})
 	add(Case{Kind: "streams", Count: len(c11kinds) * 8})
+	add(Case{Kind: "extract-pure", Count: len(zoo.Types)})
 	return cs
 }
 
@@ -113,6 +114,10 @@ func newC11World() *c11world {
 	n := &zoo.Node{Val: 9}
 	n.Next = n
 	w.values = append(w.values, n)
+	// slice fields that arrive as null and as a back-reference (whatever a decoder arms for "the list of this
+	// field" must not wait for the next message)
+	s12 := []int32{1, 2}
+	w.values = append(w.values, &zoo.SlStr{}, &zoo.Shr{S1: s12, S2: s12}, &zoo.Scalars{S: "bin", Bin: []byte{1, 2, 3}})
 	w.tm, w.nm = map[string]reflect.Type{}, map[string]string{}
 	for _, v := range w.values {
 		mergeMaps(w.tm, w.nm, v)
@@ -181,7 +186,9 @@ func newC11World() *c11world {
 		nested40 = append(nested40, 'Z')
 	}
 	legacyBin := []byte{0x62, 0x00, 0x02, 'h', 'i', 0x23, 'l', 'l', 'o'} // a legacy non-final binary chunk 'b' in a message WITHOUT class definitions
-	w.decProbes = [][]byte{p1, p2, ptrReg, nested40, legacyBin, {0x60}, {0x51, 0x90}, {0x72, 0x90, 0x90, 0x91}, {'O', 0x90}, {0x79, 0x51, 0x91}}
+	javaList := append(append([]byte{0x72, 0x13}, "java.util.ArrayList"...), 0x01, 'a', 0x01, 'b') // a typed list whose type nobody registered
+	// (the two unregistered typed lists go first: a probe that reads a registered typed list may consume what the history left behind)
+	w.decProbes = [][]byte{javaList, unknownList, p1, p2, ptrReg, nested40, legacyBin, {0x60}, {0x51, 0x90}, {0x72, 0x90, 0x90, 0x91}, {'O', 0x90}, {0x79, 0x51, 0x91}}
 	return w
 }
 
@@ -308,6 +315,10 @@ func (c11) Run(c Case, env *Env) Result {
 	errClassWithMessage = true
 	if c.Kind == "oneshot" {
 		c11oneshot(c, env, &res)
+		return res
+	}
+	if c.Kind == "extract-pure" {
+		c11extractPure(c, env, &res)
 		return res
 	}
 	if c.Kind == "streams" {
@@ -607,6 +618,48 @@ func c11streams(c Case, env *Env, res *Result) {
 		})
 		if pi != nil {
 			viol("panic@history", pi.Msg)
+		}
+	}
+}
+
+// c11extractPure: the extraction calls (ExtractTypeNameMap, TypeMapFrom, NameMapFrom) are calls on the value
+// that is about to be encoded: they must leave it as it was (nil embedded pointers stay nil, nil containers
+// stay nil), whether it is handed over by value, by pointer or inside a slice.
+func c11extractPure(c Case, env *Env, res *Result) {
+	lo, hi := subRange(c)
+	for j := lo; j < hi && j < len(zoo.Types); j++ {
+		e := zoo.Types[j]
+		for _, wk := range []string{"zero", "ptr-zero", "nil-elems", "one"} {
+			w, ok := witness(e, wk, Mix(int64(j), 11))
+			if !ok {
+				continue
+			}
+			forms := []interface{}{w}
+			if rv := reflect.ValueOf(w); rv.IsValid() && rv.Kind() == reflect.Ptr && !rv.IsNil() && rv.Elem().Kind() == reflect.Struct {
+				// the same struct as an element of a slice (settable through the slice)
+				sl := reflect.MakeSlice(reflect.SliceOf(rv.Elem().Type()), 2, 2)
+				sl.Index(0).Set(rv.Elem())
+				forms = append(forms, sl.Interface())
+			}
+			for fi, v := range forms {
+				res.Evals++
+				res.NT = append(res.NT, Hash64(fmt.Sprint("extract-pure", e.Name, wk, fi)))
+				cc := c
+				cc.Sub = j
+				before := valueSnapshot(v)
+				pi, _ := Guard(func() {
+					hessian.ExtractTypeNameMap(v)
+					hessian.TypeMapFrom(v)
+					hessian.NameMapFrom(v)
+				})
+				if pi != nil {
+					continue // C16's business
+				}
+				res.Count("extraction_calls_with_input_snapshots", 3)
+				if after := valueSnapshot(v); after != before {
+					env.Viol(res, Violation{Class: "input-modified", Features: []string{"extraction", "type=" + e.Name, "witness=" + wk}, Detail: fmt.Sprintf("ExtractTypeNameMap / TypeMapFrom / NameMapFrom changed the value they were given (%s, %s witness, form %d): before %.300s, after %.300s", e.Name, wk, fi, before, after), Case: cc})
+				}
+			}
 		}
 	}
 }
